@@ -530,6 +530,159 @@ Proof.
     change (105 :: 110 :: 102 :: rest) with (kw_inf ++ rest).
     rewrite skip_word_self by exact Hr. cbn [andb]. now rewrite (rest_ok_ell _ Hr).
 Qed.
+
+(* ---- characters ---------------------------------------------------------------- *)
+Lemma esc_roundtrip c chr e :
+  as_escaped_char c chr = Some e -> get_escaped_char e chr = c /\ c <> 0.
+Proof.
+  unfold as_escaped_char.
+  repeat match goal with
+         | |- context [if ?a =? ?b then _ else _] =>
+             destruct (a =? b) eqn:Hq;
+             [apply Z.eqb_eq in Hq; subst; intros H; inversion H; subst; destruct chr; cbn; (split; [reflexivity|lia])|clear Hq]
+         end.
+  destruct chr; cbn [andb negb].
+  - destruct (c =? 39) eqn:Eq; intros H; [|discriminate]. apply Z.eqb_eq in Eq; subst. inversion H; subst.
+    cbn. split; [reflexivity|lia].
+  - destruct (c =? 34) eqn:Eq; intros H; [|discriminate]. apply Z.eqb_eq in Eq; subst. inversion H; subst.
+    cbn. split; [reflexivity|lia].
+Qed.
+
+Lemma esc_none_chr c : as_escaped_char c true = None -> c <> 92 /\ c <> 39.
+Proof.
+  unfold as_escaped_char.
+  repeat match goal with
+         | |- context [if ?a =? ?b then _ else _] =>
+             destruct (a =? b) eqn:?Hq; [intros Hd; discriminate Hd|]
+         end.
+  cbn [andb negb]. destruct (c =? 39) eqn:E39; intros H; [discriminate|]. lia.
+Qed.
+
+Definition good_char (c : Z) : Prop := 1 <= c <= 255.
+
+Lemma tok_char c : good_char c -> tok_reads (VC c) (print_char c).
+Proof.
+  intros Hc rest Hr. unfold print_char. destruct (as_escaped_char c true) as [e|] eqn:E.
+  - destruct (esc_roundtrip _ _ _ E) as [Hg Hnz].
+    assert (He : (e =? 39) && isspace 39 = false) by now rewrite andb_false_r.
+    split; intros.
+    + unfold skip_next. cbn [app first_class Z.eqb Pos.eqb orb length Nat.ltb Nat.leb at_ nth].
+      rewrite He, Hg. replace (c =? 0) with false by lia. cbn [orb negb skipn av_type andb].
+      now rewrite (rest_ok_ell _ Hr).
+    + unfold scan_arg_val. cbn [app first_class Z.eqb Pos.eqb orb at_ nth isspace in_range Z.leb Z.compare Pos.compare Pos.compare_cont andb negb skipn].
+      rewrite Hg. now rewrite (rest_ok_ell _ Hr).
+  - destruct (esc_none_chr _ E) as [H92 H39]. split; intros.
+    + unfold skip_next. cbn [app first_class Z.eqb Pos.eqb orb length Nat.ltb Nat.leb at_ nth].
+      replace (c =? 92) with false by lia. cbn [skipn av_type andb]. now rewrite (rest_ok_ell _ Hr).
+    + unfold scan_arg_val. cbn [app first_class Z.eqb Pos.eqb orb at_ nth].
+      replace (c =? 92) with false by lia. cbn [skipn andb]. now rewrite (rest_ok_ell _ Hr).
+Qed.
+
+(* ---- quoted strings -------------------------------------------------------------- *)
+Lemma esc_none_str c : as_escaped_char c false = None -> c <> 92 /\ c <> 34.
+Proof.
+  unfold as_escaped_char.
+  repeat match goal with
+         | |- context [if ?a =? ?b then _ else _] =>
+             destruct (a =? b) eqn:?Hq; [intros Hd; discriminate Hd|]
+         end.
+  cbn [andb negb]. destruct (c =? 34) eqn:E34; intros H; [discriminate|]. lia.
+Qed.
+
+Lemma eops_brk x : eops (brk ++ x) (SIn false) = eops x (SIn false).
+Proof. reflexivity. Qed.
+Lemma scan_str_brk x acc : scan_str (brk ++ x) false acc = scan_str x false acc.
+Proof. reflexivity. Qed.
+
+Definition nonul (s : list Z) : Prop := Forall (fun c => c <> 0) s.
+
+(* the body of a quoted string, closed by a quote that is not followed by a backslash *)
+Lemma eops_body ll s : forall cols tail,
+  nonul s -> hd0 tail <> 92 ->
+  eops (fst (print_chars false ll s cols) ++ 34 :: tail) (SIn false) = Ok tail.
+Proof.
+  induction s as [|c s IH]; intros cols tail Hs Ht.
+  - cbn [print_chars fst app eops]. rewrite Z.eqb_refl.
+    destruct tail as [|b r]; [reflexivity|]. unfold hd0, at_ in Ht. cbn in Ht.
+    now replace (b =? 92) with false by lia.
+  - inversion Hs as [|? ? Hc Hs']; subst. cbn [print_chars negb andb].
+    destruct (ll - 3 <? cols) eqn:Eb;
+    destruct (as_escaped_char c false) as [e|] eqn:Ee.
+    all: try (destruct (esc_roundtrip _ _ _ Ee) as [Hg _]).
+    all: try (destruct (esc_none_str _ Ee) as [H92 H34]).
+    all: try destruct (e =? 110) eqn:En.
+    all: repeat match goal with
+           | |- context [print_chars false ?l ?s2 ?k] =>
+               let p := fresh "p" in let Ep := fresh "Ep" in
+               specialize (IH k tail Hs' Ht); destruct (print_chars false l s2 k) as [p ?] eqn:Ep
+           end; cbn [fst] in *.
+    all: rewrite <- ?app_assoc; rewrite ?eops_brk; cbn [app eops].
+    all: try (replace (92 =? 34) with false by reflexivity; cbn [Z.eqb Pos.eqb]).
+    all: try (rewrite Hg; replace (c =? 0) with false by lia).
+    all: try (replace (c =? 34) with false by lia; replace (c =? 92) with false by lia).
+    all: rewrite <- ?app_assoc; rewrite ?eops_brk; exact IH.
+Qed.
+
+Lemma scan_str_body ll s : forall cols tail acc,
+  nonul s -> hd0 tail <> 92 ->
+  scan_str (fst (print_chars false ll s cols) ++ 34 :: tail) false acc = Ok (rev acc ++ s, tail).
+Proof.
+  induction s as [|c s IH]; intros cols tail acc Hs Ht.
+  - cbn [print_chars fst app scan_str]. rewrite Z.eqb_refl. rewrite app_nil_r.
+    destruct tail as [|b r]; [reflexivity|]. unfold hd0, at_ in Ht. cbn in Ht.
+    now replace (b =? 92) with false by lia.
+  - inversion Hs as [|? ? Hc Hs']; subst. cbn [print_chars negb andb].
+    assert (IH' : forall k, scan_str (fst (print_chars false ll s k) ++ 34 :: tail) false (c :: acc)
+                            = Ok (rev acc ++ c :: s, tail)).
+    { intros k. rewrite IH by assumption. cbn [rev]. now rewrite <- app_assoc. }
+    destruct (ll - 3 <? cols) eqn:Eb;
+    destruct (as_escaped_char c false) as [e|] eqn:Ee.
+    all: try (destruct (esc_roundtrip _ _ _ Ee) as [Hg _]).
+    all: try (destruct (esc_none_str _ Ee) as [H92 H34]).
+    all: try destruct (e =? 110) eqn:En.
+    all: repeat match goal with
+           | |- context [print_chars false ?l ?s2 ?k] =>
+               let p := fresh "p" in let Ep := fresh "Ep" in
+               specialize (IH' k); destruct (print_chars false l s2 k) as [p ?] eqn:Ep
+           end; cbn [fst] in *.
+    all: rewrite <- ?app_assoc; rewrite ?scan_str_brk; cbn [app scan_str].
+    all: try (replace (92 =? 34) with false by reflexivity; cbn [Z.eqb Pos.eqb]).
+    all: try rewrite Hg.
+    all: try (replace (c =? 34) with false by lia; replace (c =? 92) with false by lia).
+    all: rewrite <- ?app_assoc; rewrite ?scan_str_brk; exact IH'.
+Qed.
+
+Lemma cstr_of_nonul s : nonul s -> cstr_of s = s.
+Proof.
+  induction 1 as [|c s Hc Hs IH]; [reflexivity|]. unfold cstr_of in *. cbn [takewhile].
+  replace (c =? 0) with false by lia. cbn [negb]. now rewrite IH.
+Qed.
+
+Lemma tok_quoted (is_sym : bool) ll s cols :
+  nonul s ->
+  tok_reads (if is_sym then VSym s else VS s)
+            (34 :: fst (print_chars false ll s cols) ++ 34 :: (if is_sym then [83] else [])).
+Proof.
+  intros Hs rest Hr. pose proof (rest_ok_hd _ Hr) as Hh.
+  set (body := fst (print_chars false ll s cols)).
+  assert (E : (34 :: body ++ 34 :: (if is_sym then [83] else [])) ++ rest
+              = 34 :: body ++ 34 :: (if is_sym then 83 :: rest else rest)).
+  { cbn [app]. rewrite <- app_assoc. cbn [app]. now destruct is_sym. }
+  rewrite E. clear E.
+  assert (Ht : hd0 (if is_sym then 83 :: rest else rest) <> 92).
+  { destruct is_sym; [rewrite hd0_cons; lia|lia]. }
+  split; intros.
+  - unfold skip_next. cbn [first_class Z.eqb Pos.eqb orb skipn].
+    unfold body. rewrite eops_body by assumption.
+    destruct is_sym.
+    + rewrite hd0_cons. cbn [Z.eqb Pos.eqb skipn av_type andb]. unfold ty_S. now rewrite (rest_ok_ell _ Hr).
+    + replace (hd0 rest =? 83) with false by lia. cbn [av_type andb]. unfold ty_s. now rewrite (rest_ok_ell _ Hr).
+  - unfold scan_arg_val. cbn [first_class Z.eqb Pos.eqb orb skipn].
+    unfold body. rewrite scan_str_body by assumption. cbn [rev app]. rewrite cstr_of_nonul by assumption.
+    destruct is_sym.
+    + rewrite hd0_cons. cbn [Z.eqb Pos.eqb skipn andb]. now rewrite (rest_ok_ell _ Hr).
+    + replace (hd0 rest =? 83) with false by lia. cbn [andb]. now rewrite (rest_ok_ell _ Hr).
+Qed.
 End Tokens.
 
 (* ------------------------------------------------------------------------- *)
@@ -752,6 +905,9 @@ Definition good_val (v : av) : Prop :=
   | VI i => - 2 ^ 31 <= i < 2 ^ 31
   | VH h => - 2 ^ 63 <= h < 2 ^ 63
   | VT | VF | VN | VInf => True
+  | VC c => good_char c
+  | VS s => nonul s
+  | VSym s => nonul s /\ sym_plain s = false     (* symbols that need quotes *)
   | _ => False
   end.
 
@@ -773,6 +929,9 @@ Proof.
   - split; [|reflexivity]. split; [now apply tok_h|]. split; [|exact I].
     destruct (print_d_hd h) as (c0 & tl & E & Hc). rewrite E. exists c0, (tl ++ [104]).
     split; [reflexivity|now apply first_ok_num].
+  - split; [|reflexivity]. split; [now apply tok_char|]. split; [|exact I].
+    unfold print_char. destruct (as_escaped_char c0 true); eexists _, _; (split; [reflexivity|]);
+      unfold first_ok, isspace, in_range; lia.
   - split; [|reflexivity]. split; [apply tok_T|]. split; [|exact I].
     eexists _, _. split; [reflexivity|]. apply first_ok_alpha. lia.
   - split; [|reflexivity]. split; [apply tok_F|]. split; [|exact I].
@@ -781,6 +940,20 @@ Proof.
     eexists _, _. split; [reflexivity|]. apply first_ok_alpha. lia.
   - split; [|reflexivity]. split; [apply tok_Inf|]. split; [|exact I].
     eexists _, _. split; [reflexivity|]. apply first_ok_alpha. lia.
+  - unfold print_string in H0. cbn [andb] in H0.
+    destruct (print_chars false (linelength o) s (cols + 1)) as [body c1] eqn:Eb.
+    inversion H0; subst; clear H0. split; [|reflexivity].
+    split; [|split; [|exact I]].
+    + replace body with (fst (print_chars false (linelength o) s (cols + 1))) by now rewrite Eb.
+      exact (tok_quoted dec2f dec2d false _ _ _ Hg).
+    + eexists _, _. split; [reflexivity|]. unfold first_ok, isspace, in_range. lia.
+  - destruct Hg as [Hn Hpl]. unfold print_string in H0. rewrite Hpl in H0. cbn [andb] in H0.
+    destruct (print_chars false (linelength o) s (cols + 1)) as [body c1] eqn:Eb.
+    inversion H0; subst; clear H0. split; [|reflexivity].
+    split; [|split; [|exact I]].
+    + replace body with (fst (print_chars false (linelength o) s (cols + 1))) by now rewrite Eb.
+      exact (tok_quoted dec2f dec2d true _ _ _ Hn).
+    + eexists _, _. split; [reflexivity|]. unfold first_ok, isspace, in_range. lia.
 Qed.
 
 Lemma count_lang vs T : lang dec2f dec2d vs T ->
